@@ -145,10 +145,21 @@ def _extract_cirq(tree):
     # cannot influence the translated gate (assignments to other names; the noise section, property C19)
     protected = {"gate", "num_controls", "control_list", "qubit_list", "target_circuit", "GATE_CIRQ"}
     pre = dispatch_if = None
+    no_control_rejected = []
     for st in loop.body:
         if isinstance(st, ast.If) and ast.unparse(st.test) == "gate.control is not None":
-            if pre is not None or dispatch_if is not None or st.orelse:
-                raise TranslateError("%s: unexpected position / shape of `if gate.control is not None:`" % fn)
+            if pre is not None or dispatch_if is not None:
+                raise TranslateError("%s: unexpected position of `if gate.control is not None:`" % fn)
+            if st.orelse:
+                # elif gate.name in {...}: raise ValueError(...)   -- "C..." names are refused when the gate has no control
+                e = st.orelse
+                if not (len(e) == 1 and isinstance(e[0], ast.If) and not e[0].orelse and len(e[0].body) == 1):
+                    raise TranslateError("%s: unexpected else-part of `if gate.control is not None:`" % fn)
+                rej_names, rej_needs = _name_test(e[0].test, fn)
+                _check_else_raises(e[0].body, fn)
+                if rej_needs:
+                    raise TranslateError("%s: unexpected test in the no-control rejection" % fn)
+                no_control_rejected = rej_names
             pre = st
         elif isinstance(st, ast.If) and ast.unparse(st.test).startswith("gate.name in"):
             if dispatch_if is not None or pre is None:
@@ -243,7 +254,7 @@ def _extract_cirq(tree):
     ident = ("qubit_list = cirq.LineQubit.range(source_circuit.width)" in src_f
              and "target_circuit.append(cirq.I.on_each(qubit_list))" in src_f)
     return {"branches": branches, "renames": renames, "gate_map": list(gmap.items()), "pow_uses": pow_uses,
-            "plain_param": sorted(plain_param), "identity_on_each": ident}
+            "plain_param": sorted(plain_param), "identity_on_each": ident, "no_control_rejected": no_control_rejected}
 
 
 # ------------------------------------------------------------------------------------------ sympy
@@ -373,35 +384,98 @@ def _extract_sympy(tree):
     chain, orelse = _if_chain(chains[0], fn)
     _check_else_raises(orelse, fn)
     branches = []
-    mul_right = None
-    for test, bbody in chain:
-        names, needs = _name_test(test, fn)
-        if len(bbody) != 1:
-            raise TranslateError("%s %s: branch body is not a single statement" % (fn, names))
-        st = bbody[0]
+    overrides = []          # (name, constructor source) used instead of GATE_SYMPY[name] when there are several controls
+    sides = set()
+
+    SINGLE = "len(gate.control) == 1"
+
+    def product(st, names, funcs):
+        """`target_circuit *= F(args)` (or `target_circuit = F(args) * target_circuit`) -> the call node."""
         if isinstance(st, ast.AugAssign) and isinstance(st.op, ast.Mult) and ast.unparse(st.target) == "target_circuit":
-            mr = True
+            sides.add(True)
+            call = st.value
         elif isinstance(st, ast.Assign) and ast.unparse(st.targets[0]) == "target_circuit" and isinstance(st.value, ast.BinOp) \
                 and isinstance(st.value.op, ast.Mult) and ast.unparse(st.value.right) == "target_circuit":
-            mr = False
+            sides.add(False)
+            call = st.value.left
         else:
-            raise TranslateError("%s %s: branch does not multiply target_circuit: %s" % (fn, names, ast.unparse(st)))
-        if mul_right is not None and mr != mul_right:
-            raise TranslateError("%s: branches multiply on different sides" % fn)
-        mul_right = mr
-        # argument order of the constructor: (control?, target(s), parameter?)
-        call = st.value if mr else st.value.left
-        if not (isinstance(call, ast.Call) and ast.unparse(call.func) == "GATE_SYMPY[gate.name]" and not call.keywords):
-            raise TranslateError("%s %s: expected GATE_SYMPY[gate.name](...)" % (fn, names))
-        ctrl, ntargets, param = _branch_usage(bbody, fn, names)
-        want = ([None] if ctrl != "CNone" else []) + ["gate.target[%d]" % k for k in range(ntargets)] \
-            + (["gate.parameter"] if param else [])
+            raise TranslateError("%s %s: statement does not multiply target_circuit: %s" % (fn, names, ast.unparse(st)))
+        if not (isinstance(call, ast.Call) and ast.unparse(call.func) in funcs and not call.keywords):
+            raise TranslateError("%s %s: expected %s(...), got %s" % (fn, names, " / ".join(funcs), ast.unparse(call)[:80]))
+        return call
+
+    def args_shape(call, names, ctrl_srcs):
+        """(control?, target[0](, target[1]), parameter?) -> (control source or None, number of targets, parameter read)."""
         got = [ast.unparse(a) for a in call.args]
-        if ctrl != "CNone" and got and got[0] in ("gate.control[0]", "tuple(gate.control)", "list(gate.control)"):
-            want[0] = got[0]
-        if got != want:
-            raise TranslateError("%s %s: unexpected argument order %s" % (fn, names, [ast.unparse(a) for a in call.args]))
+        csrc = None
+        if got and got[0] in ctrl_srcs:
+            csrc = got.pop(0)
+        param = bool(got) and got[-1] == "gate.parameter"
+        if param:
+            got.pop()
+        if got not in (["gate.target[0]"], ["gate.target[0]", "gate.target[1]"]):
+            raise TranslateError("%s %s: unexpected constructor arguments %s" % (fn, names, [ast.unparse(a) for a in call.args]))
+        return csrc, len(got), param
+
+    for test, bbody in chain:
+        names, needs = _name_test(test, fn)
+        stmts = [st for st in bbody]
+        if len(stmts) == 1 and isinstance(stmts[0], ast.If) and ast.unparse(stmts[0].test) == SINGLE:
+            # if len(gate.control) == 1: <product with gate.control[0]>  else: [import]; [F = A if gate.name in {..} else GATE_SYMPY[gate.name]]; <product with tuple(gate.control)>
+            node = stmts[0]
+            if len(node.body) != 1:
+                raise TranslateError("%s %s: single-control arm is not one statement" % (fn, names))
+            c1 = product(node.body[0], names, ["GATE_SYMPY[gate.name]"])
+            s1 = args_shape(c1, names, ["gate.control[0]"])
+            funcs = ["GATE_SYMPY[gate.name]"]
+            rest = list(node.orelse)
+            while rest and isinstance(rest[0], ast.ImportFrom) and rest[0].module == "sympy.physics.quantum.gate":
+                rest.pop(0)
+            if len(rest) == 2 and isinstance(rest[0], ast.Assign) and len(rest[0].targets) == 1 and isinstance(rest[0].targets[0], ast.Name) \
+                    and isinstance(rest[0].value, ast.IfExp):
+                ife = rest[0].value
+                t = ife.test
+                if not (isinstance(t, ast.Compare) and len(t.ops) == 1 and isinstance(t.ops[0], ast.In) and _is_gate_attr(t.left, "name")
+                        and ast.unparse(ife.orelse) == "GATE_SYMPY[gate.name]"):
+                    raise TranslateError("%s %s: unexpected choice of the multi-controlled constructor: %s" % (fn, names, ast.unparse(ife)))
+                onames = str_collection(t.comparators[0], fn + " multi-control override names")
+                if not set(onames) <= set(names):
+                    raise TranslateError("%s %s: override names %s are not names of the branch" % (fn, names, onames))
+                overrides += [(nm, ast.unparse(ife.body)) for nm in sorted(onames)]
+                funcs = [rest[0].targets[0].id]
+                rest.pop(0)
+            if len(rest) != 1:
+                raise TranslateError("%s %s: unexpected statements in the multi-control arm" % (fn, names))
+            c2 = product(rest[0], names, funcs)
+            s2 = args_shape(c2, names, ["tuple(gate.control)", "list(gate.control)"])
+            if s1[0] is None or s2[0] is None or s1[1:] != s2[1:]:
+                raise TranslateError("%s %s: the two arms of `if %s` do not pass (controls, same targets, same parameter)" % (fn, names, SINGLE))
+            branches.append((names, "CSplit", s1[1], s1[2], needs))
+            continue
+        ctrl_var = None
+        if len(stmts) == 2 and isinstance(stmts[0], ast.Assign) and len(stmts[0].targets) == 1 and isinstance(stmts[0].targets[0], ast.Name):
+            # controls = gate.control[0] if len(gate.control) == 1 else tuple(gate.control)
+            v = stmts[0].value
+            if not (isinstance(v, ast.IfExp) and ast.unparse(v.test) == SINGLE and ast.unparse(v.body) == "gate.control[0]"
+                    and ast.unparse(v.orelse) in ("tuple(gate.control)", "list(gate.control)")):
+                raise TranslateError("%s %s: unexpected assignment %s" % (fn, names, ast.unparse(stmts[0])))
+            ctrl_var = stmts[0].targets[0].id
+            stmts = stmts[1:]
+        if len(stmts) != 1:
+            raise TranslateError("%s %s: branch body is not a single product" % (fn, names))
+        call = product(stmts[0], names, ["GATE_SYMPY[gate.name]"])
+        csrc, ntargets, param = args_shape(call, names, ["gate.control[0]", "tuple(gate.control)", "list(gate.control)"] + ([ctrl_var] if ctrl_var else []))
+        if ctrl_var is not None and csrc != ctrl_var:
+            raise TranslateError("%s %s: %s is assigned but not passed as the control argument" % (fn, names, ctrl_var))
+        ctrl = "CNone" if csrc is None else ("CSplit" if csrc == ctrl_var else ("CFirst" if csrc == "gate.control[0]" else "CAll"))
+        # nothing else in the branch may look at the controls
+        u_ctrl, u_nt, u_par = _branch_usage(stmts, fn, names)
+        if (u_ctrl == "CNone") != (ctrl == "CNone" or ctrl_var is not None) or u_nt != ntargets or u_par != param:
+            raise TranslateError("%s %s: the branch reads gate attributes outside the constructor arguments" % (fn, names))
         branches.append((names, ctrl, ntargets, param, needs))
+    if len(sides) != 1:
+        raise TranslateError("%s: branches multiply on different sides" % fn)
+    mul_right = sides.pop()
     cg = find_def(tree, "controlled_gate")
     inner = [n for n in cg.body if isinstance(n, ast.FunctionDef)]
     if len(inner) != 1 or [a.arg for a in inner[0].args.args] != ["control", "target"] \
@@ -409,7 +483,7 @@ def _extract_sympy(tree):
         raise TranslateError("controlled_gate: unexpected shape")
     mats = {nm: _sympy_matrix(tree, nm) for nm in ("rx_gate", "ry_gate", "rz_gate", "p_gate")}
     return {"branches": branches, "renames": [], "gate_map": _gate_map(tree, "get_sympy_gates", "GATE_SYMPY"),
-            "iter_reversed": iter_reversed, "mul_right": mul_right, "matrices": mats}
+            "multi_overrides": overrides, "iter_reversed": iter_reversed, "mul_right": mul_right, "matrices": mats}
 
 
 def _advertised_order(tree, what):
@@ -471,6 +545,10 @@ def emit(t):
          "(* name, constructor, exponent expression, global_shift in halves *)",
          "Definition cirq_pow_uses : list (string * pow_use) :=\n  [ %s ]." % ";\n    ".join(
              "(%s, PowUse %s %s (%d)%%Z)" % (_coq_str(nm), _coq_str(ctor), pe, sh) for (nm, ctor, pe, sh) in c["pow_uses"]),
+         "(* constructors used instead of GATE_SYMPY[name] when a gate has several controls, in front of the table *)",
+         "Definition sympy_multi_gate_map : list (string * string) :=\n  %s ++ sympy_gate_map." % (_pairs(s.get("multi_overrides", [])) if s.get("multi_overrides") else "[]"),
+         "(* 'C...' names translate_c_to_cirq refuses when the gate has no control *)",
+         "Definition cirq_no_control_rejected : list string := %s." % coq_string_list(c.get("no_control_rejected", [])),
          "(* names whose branch hands gate.parameter unchanged to the constructor *)",
          "Definition cirq_plain_param : list string := %s." % coq_string_list(c["plain_param"]),
          "Definition cirq_identity_on_each : bool := %s." % _coq_bool(c["identity_on_each"]),
@@ -491,7 +569,7 @@ def emit(t):
 
 
 # ------------------------------------------------------------------------------------------ fallback
-# Last-known-good tables (the output of extract() on the tree of 2026-09-30).  Used by harness/props/C01.py ONLY
+# Last-known-good tables (the output of extract() on the tree of 2026-10-01, after the fix: commits f745714, afe2f2a, 042efaa).  Used by harness/props/C01.py ONLY
 # when extract() fails closed, so that the implementation-side oracles and the model correspondence still run;
 # the evidence then says "FALLBACK constants", never "regenerated from /repo".
 FALLBACK = {'cirq': {'branches': [(['H', 'S', 'SDAG', 'T', 'X', 'Y', 'Z'], 'CNone', 1, False, False),
@@ -535,13 +613,14 @@ FALLBACK = {'cirq': {'branches': [(['H', 'S', 'SDAG', 'T', 'X', 'Y', 'Z'], 'CNon
                        ('PHASE', 'cirq.ZPowGate', 'PEParamOverPi', 0),
                        ('CPHASE', 'cirq.ZPowGate', 'PEParamOverPi', 0)],
           'plain_param': ['CRX', 'CRY', 'CRZ', 'RX', 'RY', 'RZ'],
-          'identity_on_each': True},
+          'identity_on_each': True,
+          'no_control_rejected': ['CH', 'CNOT', 'CPHASE', 'CRX', 'CRY', 'CRZ', 'CSWAP', 'CX', 'CY', 'CZ']},
  'sympy': {'branches': [(['H', 'X', 'Y', 'Z'], 'CNone', 1, False, False),
                         (['S', 'T'], 'CNone', 1, False, True),
                         (['PHASE', 'RX', 'RY', 'RZ'], 'CNone', 1, True, False),
-                        (['CH', 'CNOT', 'CS', 'CT', 'CX', 'CY', 'CZ'], 'CFirst', 1, False, False),
+                        (['CH', 'CNOT', 'CS', 'CT', 'CX', 'CY', 'CZ'], 'CSplit', 1, False, False),
                         (['SWAP'], 'CNone', 2, False, False),
-                        (['CPHASE', 'CRX', 'CRY', 'CRZ'], 'CFirst', 1, True, False)],
+                        (['CPHASE', 'CRX', 'CRY', 'CRZ'], 'CSplit', 1, True, False)],
            'renames': [],
            'gate_map': [('H', 'SYMPYGate.HadamardGate'),
                         ('X', 'SYMPYGate.XGate'),
@@ -565,6 +644,7 @@ FALLBACK = {'cirq': {'branches': [(['H', 'S', 'SDAG', 'T', 'X', 'Y', 'Z'], 'CNon
                         ('CS', 'controlled_gate(SYMPYGate.PhaseGate)'),
                         ('CT', 'controlled_gate(SYMPYGate.TGate)'),
                         ('CPHASE', 'controlled_gate(p_gate)')],
+           'multi_overrides': [('CNOT', 'controlled_gate(XGate)'), ('CX', 'controlled_gate(XGate)')],
            'iter_reversed': True,
            'mul_right': True,
            'matrices': {'rx_gate': [['(cosh_ S theta)', '(kmul (kopp ki) (sinh_ S theta))'], ['(kmul (kopp ki) (sinh_ S theta))', '(cosh_ S theta)']],
@@ -572,7 +652,7 @@ FALLBACK = {'cirq': {'branches': [(['H', 'S', 'SDAG', 'T', 'X', 'Y', 'Z'], 'CNon
                         'rz_gate': [['(cis_z S theta (-1)%Z)', 'k0'], ['k0', '(cis_z S theta (1)%Z)']],
                         'p_gate': [['k1', 'k0'], ['k0', '(cis_z S theta (2)%Z)']]}},
  'cirq_order': 'lsq_first',
- 'sympy_order': 'lsq_first'}
+ 'sympy_order': 'msq_first'}
 
 
 if __name__ == "__main__":
